@@ -287,6 +287,50 @@ pub fn run(run: &Run) -> i32 {
             digests.insert(n, d);
         }
     }
+    // the command-line front ends (src/cli/ccsds.rs, src/cli/ccsds_c2.rs): every (rate, block size)
+    // combination must print the pinned matrix of the code the Blue Book gives that combination
+    if run.replay.is_none() {
+        let mut jobs: Vec<(Vec<String>, String)> = vec![(crate::c20::sargs(&["ccsds-c2"]), "C2".to_string())];
+        for r in ["1/2", "2/3", "4/5"] {
+            for k in ["1024", "4096", "16384"] {
+                jobs.push((crate::c20::sargs(&["ccsds", "--rate", r, "--block-size", k]), format!("AR4JA_R{}_{}", r.replace('/', "_"), k)));
+            }
+        }
+        let part = par_items(&jobs, |(args, ident), a| {
+            a.evals += 1;
+            a.nontrivial += 1;
+            let key = format!("ccsds:cli:{}", ident);
+            let replay = json!({"kind": "cli", "args": args});
+            let o = crate::c20::run_cli(args, 300);
+            if o.timed_out || o.status != Some(0) {
+                a.violate(key, format!("exit status {:?} (timed out: {}), stderr {:?}", o.status, o.timed_out, o.stderr.lines().next()), replay);
+                return;
+            }
+            match guard(|| ldpc_toolbox::sparse::SparseMatrix::from_alist(&o.stdout)) {
+                Ok(Ok(h)) => {
+                    let d = crate::mats::matrix_digest(&h);
+                    match pins.get(ident) {
+                        Some(p) if *p == d => a.outcome(&d),
+                        Some(p) => a.violate(key, format!("the tool prints a {}x{} matrix with digest {}, the pinned reference for {} is {}", h.num_rows(), h.num_cols(), d, ident, p), replay),
+                        None => {
+                            if std::env::var("VERIF_WRITE_PINS").is_err() {
+                                machinery(&format!("C07: no pinned digest for {}", ident));
+                            }
+                        }
+                    }
+                }
+                other => a.violate(key, format!("stdout is not an alist: {:?}", other.map(|r| r.map(|_| ()))), replay),
+            }
+        });
+        acc = acc.merge(part);
+        for bad in [crate::c20::sargs(&["ccsds", "--rate", "3/4", "--block-size", "1024"]), crate::c20::sargs(&["ccsds", "--rate", "1/2", "--block-size", "2048"])] {
+            acc.evals += 1;
+            let o = crate::c20::run_cli(&bad, 60);
+            if o.timed_out || o.status == Some(0) || o.status.is_none() || o.stderr.contains("panicked at") {
+                acc.violate(format!("ccsds:cli:{:?}", bad), format!("a rate / block size the Blue Book does not define is accepted (status {:?})", o.status), json!({"kind": "cli", "args": bad}));
+            }
+        }
+    }
     if items.len() != 10 {
         acc.violate("ccsds:count".into(), format!("{} codes enumerated, expected 9 AR4JA + C2", items.len()), json!({"kind": "count"}));
     }
@@ -300,7 +344,7 @@ pub fn run(run: &Run) -> i32 {
         run,
         acc,
         Coverage {
-            rule: "all 9 AR4JA (rate, k) pairs and the C2 code. AR4JA: shape 3M x (k+3M) with M from a literal Table 7-2; invariance of every M/4 x M/4 sub-block under the simultaneous cyclic shift; every column/row weight equals the protograph's block degree ((4,4) per extension pair, (2,3,1,3,6), punctured block 6; rows 3, 6|10|18); last 3M columns invertible and full rank by independent bit-set elimination (all nine codes); the library encoder accepts and encodes (k = 1024; k = 4096 in thorough); girth 6 for (1/2, 1024); pinned digests. C2: 1022 x 8176, every 511x511 block a weight-2 circulant, weights 32/4, rank exactly 1020, girth 6, pin.".into(),
+            rule: "all 9 AR4JA (rate, k) pairs and the C2 code, each also through the real command-line binary (ccsds --rate --block-size, ccsds-c2: the printed matrix must be the pinned one of the code the Blue Book assigns to that combination; two undefined combinations must fail). AR4JA: shape 3M x (k+3M) with M from a literal Table 7-2; invariance of every M/4 x M/4 sub-block under the simultaneous cyclic shift; every column/row weight equals the protograph's block degree ((4,4) per extension pair, (2,3,1,3,6), punctured block 6; rows 3, 6|10|18); last 3M columns invertible and full rank by independent bit-set elimination (all nine codes); the library encoder accepts and encodes (k = 1024; k = 4096 in thorough); girth 6 for (1/2, 1024); pinned digests. C2: 1022 x 8176, every 511x511 block a weight-2 circulant, weights 32/4, rank exactly 1020, girth 6, pin.".into(),
             exhaustive: true,
             extra: serde_json::Map::new(),
             graph: None,
